@@ -25,6 +25,16 @@ type LoopSpec struct {
 	Ensures    []*Clause
 }
 
+// GhostUpdate is ghost code: `ghost after|before "stmt" NAME := EXPR` assigns a ghost variable
+// before/after every statement whose printed text starts with the anchor.
+type GhostUpdate struct {
+	Anchor string
+	After  bool
+	Name   string
+	Expr   SExpr
+	Src    string
+}
+
 type AssertSpec struct {
 	Before string // printed statement prefix to match
 	Clause *Clause
@@ -59,6 +69,7 @@ type FuncContract struct {
 	Loops       map[int]*LoopSpec
 	Closures    map[int]*LoopSpec // closure n invariants
 	Asserts     []*AssertSpec
+	GhostUpd    []*GhostUpdate
 	Iter        *IterSpec
 	Inline      bool // callee body is inlined at call sites instead of using a contract
 	NoBody      bool // do not verify body even though not trusted (never set silently)
@@ -212,8 +223,40 @@ func (c *Contracts) ParseText(path string, text string, pkgPath string) error {
 			curPkg = rest
 			cur, curAx, curTable = nil, nil, nil
 		case "ghost":
-			// ghost var name type
+			// ghost var name type | ghost after|before "stmt" NAME := EXPR (inside a func contract)
 			f := strings.Fields(rest)
+			if len(f) >= 1 && (f[0] == "after" || f[0] == "before") {
+				if cur == nil {
+					return fail(l, "ghost %s outside a func contract", f[0])
+				}
+				r2 := strings.TrimSpace(rest[len(f[0]):])
+				if !strings.HasPrefix(r2, "\"") {
+					return fail(l, "ghost %s needs a quoted statement prefix", f[0])
+				}
+				end := 1
+				for end < len(r2) && r2[end] != '"' {
+					if r2[end] == '\\' {
+						end++
+					}
+					end++
+				}
+				anchor, err := strconv.Unquote(r2[:end+1])
+				if err != nil {
+					return fail(l, "bad statement string: %v", err)
+				}
+				asg := strings.TrimSpace(r2[end+1:])
+				i := strings.Index(asg, ":=")
+				if i < 0 {
+					return fail(l, "ghost %s \"stmt\" NAME := EXPR expected", f[0])
+				}
+				name := strings.TrimPrefix(strings.TrimSpace(asg[:i]), "ghost.")
+				e, err := ParseExpr(strings.TrimSpace(asg[i+2:]))
+				if err != nil {
+					return fail(l, "%v", err)
+				}
+				cur.GhostUpd = append(cur.GhostUpd, &GhostUpdate{Anchor: anchor, After: f[0] == "after", Name: name, Expr: e, Src: asg})
+				break
+			}
 			if len(f) < 3 || f[0] != "var" {
 				return fail(l, "ghost var NAME TYPE expected")
 			}
